@@ -42,6 +42,8 @@ pub enum CancelOf {
 pub enum PeerKind {
     Req { id: IdRef, deadline: Dl, sampled: bool },
     Cancel { of: CancelOf },
+    /// The peer ends the inbound side here (nothing is sent afterwards).
+    HalfClose,
 }
 
 #[derive(Clone, Debug, Serialize, Deserialize)]
@@ -116,6 +118,7 @@ pub enum SFocus {
     Shutdown,
     Extreme,
     Independent,
+    Faults,
 }
 
 pub fn gen(rng: &mut Rng, focus: SFocus) -> ServerScn {
@@ -161,7 +164,11 @@ pub fn gen(rng: &mut Rng, focus: SFocus) -> ServerScn {
                 PeerKind::Cancel { of: CancelOf::Entry(j) } => Some(*j),
                 _ => None,
             }).collect();
-            let dupable: Vec<usize> = reqs_before.iter().copied().filter(|j| !cancelled.contains(j)).collect();
+            let dupable: Vec<usize> = if focus == SFocus::Dups {
+                reqs_before.clone()
+            } else {
+                reqs_before.iter().copied().filter(|j| !cancelled.contains(j)).collect()
+            };
             let raw = *rng.pick(&[0u64, u64::MAX, 1 << 32]);
             let raw_used = script.iter().any(|a| matches!(&a.kind, PeerKind::Req { id: IdRef::Raw(x), .. } if *x == raw));
             let id = if !dupable.is_empty() && rng.chance(dup_p) {
@@ -236,11 +243,28 @@ pub fn gen(rng: &mut Rng, focus: SFocus) -> ServerScn {
             stalls.push((rng.range(0, 12), rng.range(1, 30)));
         }
     }
+    if (focus == SFocus::Shutdown && rng.chance(700)) || (focus == SFocus::General && rng.chance(100)) {
+        script.push(PeerAct { delay_ms: rng.range(0, 5), kind: PeerKind::HalfClose });
+        handlers.push(HandlerPlan { steps: vec![], err: false, run: RunMode::Execute });
+        if stalls.is_empty() && rng.chance(600) {
+            stalls.push((rng.range(0, 6), rng.range(1, 20)));
+        }
+    }
     let subscriber = if focus == SFocus::Extreme { rng.below(3) as u8 } else { 0 };
+    let mut faults = vec![];
+    if focus == SFocus::Faults {
+        use crate::transport::{FaultAt, Op2};
+        let op = *rng.pick(&[Op2::Ready, Op2::Send, Op2::Flush, Op2::Next, Op2::Send, Op2::Next, Op2::Ready]);
+        let k = match op {
+            Op2::Send => rng.range(1, n as u64 + 1) as u32,
+            _ => rng.range(1, 30) as u32,
+        };
+        faults.push(FaultAt { op, k });
+    }
     ServerScn {
         resp_buf,
         limit,
-        link: LinkCfg { cap, coupled, faults: vec![] },
+        link: LinkCfg { cap, coupled, faults },
         stalls,
         script,
         handlers,
@@ -630,6 +654,11 @@ pub fn run(scn: &ServerScn, tape: Tape, _logging: bool) -> RunOutput {
                             };
                             peer_p.push(ClientMessage::Request(Request { context: ctx, id: rid, message: i as u64 }));
                         }
+                        PeerKind::HalfClose => {
+                            sim_p.count("fault.peer_eof_midrun");
+                            peer_p.close_read();
+                            return;
+                        }
                         PeerKind::Cancel { of } => {
                             ids.push(None);
                             let rid = match of {
@@ -743,6 +772,9 @@ pub struct ServerModel {
     /// time at each seq
     pub times: Vec<i64>,
     pub idles: Vec<(u64, i64)>,
+    /// idle points at which a throttled channel could not do housekeeping (at its limit with a
+    /// sink that is not ready): see the known finding on MaxRequests
+    pub blocked_idles: std::collections::HashSet<u64>,
 }
 
 impl ServerModel {
@@ -768,6 +800,30 @@ impl ServerModel {
         !guard_gone
     }
     pub fn possibly(&self, i: &Inc, x: u64) -> bool {
+        self.possibly_ext(i, x, false)
+    }
+    fn idle_between_ext(&self, from_seq: u64, to_seq: u64, min_t: i64, skip_blocked: bool) -> bool {
+        self.idles
+            .iter()
+            .any(|(s, t)| *s > from_seq && *s < to_seq && *t >= min_t && !(skip_blocked && self.blocked_idles.contains(s)))
+    }
+    /// `skip_blocked`: do not count idle points at which housekeeping was deferred.
+    pub fn possibly_ext(&self, i: &Inc, x: u64, skip_blocked: bool) -> bool {
+        if skip_blocked {
+            if i.dup_ignored || i.read_seq >= x || self.removed_obs(i, x) {
+                return false;
+            }
+            if self.idle_between_ext(i.read_seq, x, i.deadline.saturating_add(2), true) {
+                return false;
+            }
+            let g = i.unrun.or(i.hdrop.and_then(|(g, _, fin)| if fin { None } else { Some(g) }));
+            if let Some(g) = g {
+                if g < x && self.idle_between_ext(g, x, i64::MIN, true) {
+                    return false;
+                }
+            }
+            return true;
+        }
         if i.dup_ignored || i.read_seq >= x || self.removed_obs(i, x) {
             return false;
         }
@@ -789,7 +845,7 @@ impl ServerModel {
 }
 
 pub fn build_model(log: &[Ev], node: u8, link: u8) -> ServerModel {
-    let mut m = ServerModel { incs: Vec::new(), unclean: Default::default(), times: Vec::with_capacity(log.len()), idles: Vec::new() };
+    let mut m = ServerModel { incs: Vec::new(), unclean: Default::default(), times: Vec::with_capacity(log.len()), idles: Vec::new(), blocked_idles: Default::default() };
     // current incarnation per id
     let mut cur: HashMap<u64, usize> = HashMap::new();
     let mut by_tag: HashMap<u64, usize> = HashMap::new();
@@ -821,7 +877,14 @@ pub fn build_model(log: &[Ev], node: u8, link: u8) -> ServerModel {
                     // provisional: becomes current incarnation of the id if it is yielded or
                     // throttled; a duplicate-while-in-flight that is ignored never does
                     if let Some(prev) = cur.get(id) {
-                        if m.incs[*prev].resp.is_empty() {
+                        let p = &m.incs[*prev];
+                        // Unclean reuse: the previous incarnation ended without its response
+                        // being written although its handler had finished (the response may
+                        // still sit in the buffer), or the application dropped it (a guard
+                        // cancellation carrying only the id may still be queued). A previous
+                        // incarnation that was aborted by a Cancel or by its deadline before
+                        // finishing leaves nothing behind: reuse after that is clean.
+                        if p.resp.is_empty() && (p.finish.is_some() || p.unrun.is_some()) {
                             m.incs[idx].prev_unanswered_at_read = true;
                         }
                     }
@@ -899,6 +962,24 @@ pub fn build_model(log: &[Ev], node: u8, link: u8) -> ServerModel {
             _ => {}
         }
     }
+    // Unclean reuse, decided over the whole history: an incarnation that was followed by another
+    // yielded incarnation of the same id although it never got its response on the wire, and
+    // whose handler finished (buffered response) or was dropped by the application (queued guard
+    // cancellation) at any time.
+    let mut by_id: HashMap<u64, Vec<usize>> = HashMap::new();
+    for (ix, i) in m.incs.iter().enumerate() {
+        if i.tag != u64::MAX && i.yielded.is_some() {
+            by_id.entry(i.id).or_default().push(ix);
+        }
+    }
+    for (id, ixs) in by_id {
+        for w in ixs.windows(2) {
+            let p = &m.incs[w[0]];
+            if p.resp.is_empty() && (p.finish.is_some() || p.unrun.is_some()) {
+                m.unclean.insert(id);
+            }
+        }
+    }
     m
 }
 
@@ -972,6 +1053,11 @@ pub fn check(scn: &ServerScn, log: &[Ev], sim: &Sim, node: u8) -> Vec<Violation>
         }
     }
 
+    if limit.is_some() {
+        let blocked: Vec<u64> = m.idles.iter().filter(|(s, _)| stalled_at(*s)).map(|x| x.0).collect();
+        m.blocked_idles.extend(blocked);
+    }
+
     // ---- C08: handler count per read request
     for ix in 0..m.incs.len() {
         let i = &m.incs[ix];
@@ -994,7 +1080,11 @@ pub fn check(scn: &ServerScn, log: &[Ev], sim: &Sim, node: u8) -> Vec<Violation>
         if i.yielded.is_none() && !throttled && !poss_tracked && alive_after_read {
             // must have been yielded in the same poll it was read (or throttled when a limit is set)
             let next_idle = m.idles.iter().find(|(s, _)| *s > r).map(|x| x.0);
-            if next_idle.is_some() {
+            // the channel may fail (or be dropped) in the very poll that read the request
+            let failed_first = next_idle
+                .map(|ni| first_fail.map(|f| f.0 < ni).unwrap_or(false) || over.map(|o| o < ni).unwrap_or(false))
+                .unwrap_or(true);
+            if next_idle.is_some() && !failed_first {
                 v.push(viol("C08", "handler-count", &["not-yielded"], format!("request tag {} (id {}) was read at seq {} but never offered to the application", i.tag, i.id, r)));
             }
         }
@@ -1103,7 +1193,7 @@ pub fn check(scn: &ServerScn, log: &[Ev], sim: &Sim, node: u8) -> Vec<Violation>
 
     // ---- C11 / C04.still-counted: reported count against the interval model
     for (sseq, infl, timers) in &samples {
-        if over.map(|o| o < *sseq).unwrap_or(false) {
+        if over.map(|o| o < *sseq).unwrap_or(false) || first_fail.map(|f| f.0 < *sseq).unwrap_or(false) {
             continue;
         }
         let hi = m.incs.iter().filter(|i| i.tag != u64::MAX && m.possibly(i, *sseq)).count() as u64;
@@ -1177,7 +1267,11 @@ pub fn check(scn: &ServerScn, log: &[Ev], sim: &Sim, node: u8) -> Vec<Violation>
                 let r = i.read_seq;
                 let hi = m.incs.iter().enumerate().filter(|(j, o)| *j != ix && o.tag != u64::MAX && m.possibly(o, r)).count();
                 if hi < l {
-                    v.push(viol("C12", "over-throttle", &[], format!("request tag {} (read at seq {r}) refused although at most {hi} < limit {l} requests were in flight when it was read", i.tag)));
+                    // was the count stale only because housekeeping had been deferred by a
+                    // not-ready sink while at the limit (known finding)?
+                    let hi_relaxed = m.incs.iter().enumerate().filter(|(j, o)| *j != ix && o.tag != u64::MAX && m.possibly_ext(o, r, true)).count();
+                    let tags: &[&str] = if hi_relaxed >= l { &["limit", "sink_unready"] } else { &[] };
+                    v.push(viol("C12", "over-throttle", tags, format!("request tag {} (read at seq {r}) refused although at most {hi} < limit {l} requests were in flight when it was read", i.tag)));
                 }
             }
         }
@@ -1228,9 +1322,38 @@ pub fn check(scn: &ServerScn, log: &[Ev], sim: &Sim, node: u8) -> Vec<Violation>
             }
         }
     }
+    // a throttle response written without readiness is rejected by a bounded sink: the refused
+    // request then never gets its response
+    {
+        let mut rejected = false;
+        for e in log {
+            match &e.kind {
+                EvKind::Fault { kind: "reject_unready_write", .. } => rejected = true,
+                EvKind::TOp { link: 0, op: Op::Send, res: Res::Err, item: Some(Item::Resp { id, err: Some((_, d)), .. }) } if rejected => {
+                    if d == THROTTLE_DETAIL {
+                        v.push(viol("C12", "throttle-count", &["lost"], format!("throttle response for id {id} was written to a sink that had not been readied and was rejected: the refused request gets no response")));
+                    }
+                    rejected = false;
+                }
+                _ => {}
+            }
+        }
+    }
     // C10 server
     if let Some(e) = stream_end {
         if first_fail.is_none() {
+            // responses written but not flushed when the stream ends are lost with the transport
+            let mut unflushed = 0u32;
+            for ev in log.iter().take_while(|x| x.seq < e) {
+                match &ev.kind {
+                    EvKind::TOp { link: 0, op: Op::Send, res: Res::Ok, .. } => unflushed += 1,
+                    EvKind::TOp { link: 0, op: Op::Flush, res: Res::Ok, .. } | EvKind::TOp { link: 0, op: Op::Close, res: Res::Ok, .. } => unflushed = 0,
+                    _ => {}
+                }
+            }
+            if unflushed > 0 && scn.link.coupled {
+                v.push(viol("C10", "server-early-end", &["unflushed"], format!("request stream ended at seq {e} with {unflushed} written response(s) not flushed")));
+            }
             if read_eof.map(|r| r > e).unwrap_or(true) {
                 v.push(viol("C10", "server-early-end", &["no-eof"], format!("request stream ended at seq {e} although the inbound side had not ended")));
             }
